@@ -39,6 +39,7 @@ namespace {
 const char* const kKnownDupChain = "duplicate-chain-translation";
 const char* const kKnownSelfMention = "merge-self-mention-retranslated";
 const char* const kKnownBaseWithElement = "equate-base-with-non-set";
+const char* const kKnownCyclic = "equate-cyclic-identification-hangs";
 
 bool isRSObject(CstType t) { return t == CstType::base || t == CstType::constant || t == CstType::structured || t == CstType::term; }
 bool isBaseSet(CstType t) { return t == CstType::base || t == CstType::constant; }
@@ -74,21 +75,9 @@ struct Groups {  // classes of constituents identified by the equation table
 
 std::string trStr(const EntityTranslation& t) { std::map<EntityUID, EntityUID> m(t.begin(), t.end()); std::string o = "{"; for (auto& [k, v] : m) o += std::to_string(k) + "->" + std::to_string(v) + " "; return o + "}"; }
 
-// three or more constituents of one kind whose texts coincide up to alias names (the input class of the listed
-// duplicate-chain defect): computed on the operands only
-bool hasTripleShape(const std::vector<const Snap*>& sns) {
-  std::map<std::string, int> shapes;
-  for (const Snap* sn : sns) {
-    for (const auto& r : sn->rows) {
-      if (r.def.empty() && r.conv.empty() && r.term.empty() && r.text.empty()) continue;
-      std::string sh = std::to_string(static_cast<int>(r.type));
-      for (int f = 0; f < 4; ++f) { sh += "\x1f"; for (const auto& g : sgen::splitField(sgen::fieldOf(r, f), f)) sh += g.alias ? "#" : g.s; }
-      if (++shapes[sh] >= 3) return true;
-    }
-  }
-  return false;
-}
-
+// The listed finding "duplicate-chain-translation": DeleteDuplicates records copy -> original and may erase that original
+// later as a copy of a third constituent, leaving the recorded image dangling.  A dangling image v belongs to that class
+// exactly when v is itself a constituent that was translated on (a key of the translation that does not map to itself).
 // every text of every operand constituent against its image
 // `mergedIn`: index of the view whose constituents were inserted by MergeWith (-1: none) - see the listed finding below
 Verdict checkStructure(Ctx& c, const std::vector<View>& views, const Snap& res, const Groups& groups, const std::string& what, int mergedIn = -1) {
@@ -391,6 +380,45 @@ bool baseWithNonSetClass(const std::vector<std::tuple<const Row*, const Row*>>& 
   return false;
 }
 
+// BinarySynthes turns a pair round when the key is derived and the value basic (documented by upstream's
+// EquationFlippingTransitions); inside one schema pairs are taken as given
+bool swappedBySynthesis(const Row& k, const Row& v) { return k.type != v.type && !isBaseSet(k.type) && isBaseNotion(v.type); }
+
+// pairs that replace a base set by a derived constituent: the only ones whose substitution can feed itself
+bool hasBaseToDerivedPair(const std::vector<std::tuple<const Row*, const Row*>>& pairs, bool synthesis) {
+  bool cross = false, nonBasic = false;
+  for (const auto& [k, v] : pairs) {
+    if (!k || !v) continue;
+    const bool sw = synthesis && swappedBySynthesis(*k, *v);
+    const Row* a = sw ? v : k; const Row* b = sw ? k : v;
+    if (isBaseSet(a->type) && !isBaseSet(b->type)) cross = true;
+    if (!isBaseSet(a->type) && !isBaseSet(b->type)) nonBasic = true;
+  }
+  return cross && nonBasic;
+}
+// input class of the listed finding "equate-cyclic-identification-hangs": following  base set -> base sets in the
+// typification of the constituent it is equated with  leads round in a circle, and some non-basic pair has to be type-checked
+bool cyclicIdentificationClass(const std::vector<std::tuple<const Row*, const Row*>>& pairs, const Snap& sa, int va, const Snap& sb, int vb, bool synthesis) {
+  if (!hasBaseToDerivedPair(pairs, synthesis)) return false;
+  std::map<Member, std::set<Member>> edges;
+  for (const auto& [k, v] : pairs) {
+    if (!k || !v) continue;
+    const bool sw = synthesis && swappedBySynthesis(*k, *v);
+    const Row* a = sw ? v : k; const Row* b = sw ? k : v;
+    const Snap& bsn = sw ? sa : sb; const int av = sw ? vb : va, bv = sw ? va : vb;
+    if (!isBaseSet(a->type) || !b->typed || b->logic) continue;
+    for (const auto& t : sgen::aliasesOf(sgen::splitFormal(b->typ))) if (const Row* r = bsn.findAlias(t); r != nullptr) edges[{av, a->uid}].insert({bv, r->uid});
+  }
+  for (const auto& [start, unused] : edges) {
+    std::set<Member> seen; std::vector<Member> todo{start};
+    while (!todo.empty()) {
+      const auto m = todo.back(); todo.pop_back();
+      if (auto it = edges.find(m); it != edges.end()) for (const auto& n : it->second) { if (n == start) return true; if (seen.insert(n).second) todo.push_back(n); }
+    }
+  }
+  return false;
+}
+
 // ---------------------------------------------------------------------------------------------------------------
 // synthesis
 Verdict propSynthesis(Ctx& c) {
@@ -429,6 +457,12 @@ Verdict propSynthesis(Ctx& c) {
   const bool unresolvedAny = sgen::hasUnresolved(b1) || sgen::hasUnresolved(b2);  // a missing name of one operand may be captured by the other
 
   if (pbt::known(kKnownBaseWithElement) && baseWithNonSetClass(pairs, b1, b2)) return pbt::excluded(kKnownBaseWithElement);
+  if (pbt::known(kKnownCyclic) && cyclicIdentificationClass(pairs, b1, 0, b2, 1, true)) return pbt::excluded(kKnownCyclic);
+  if (hasBaseToDerivedPair(pairs, true)) {  // termination guard: a table that replaces base sets by derived constituents is probed in a child first
+    const auto probe = pbt::inChild([&] { BinarySynthes trial(s1, *s2, opts); return pbt::pass(); }, 4);
+    if (probe.status == pbt::ChildResult::TIMEOUT) return pbt::fail("admissibility-check-hangs", "the BinarySynthes constructor (IsEquatable) did not return within 4 s");
+    c.count("checked:termination-probe");
+  }
 
   BinarySynthes op(s1, *s2, opts);
   const bool defined = op.IsCorrectlyDefined();
@@ -472,7 +506,11 @@ Verdict propSynthesis(Ctx& c) {
       CHECK(tr.ContainsKey(r.uid), "translation-total", v.name + " constituent " + r.str() + " has no image in translation " + trStr(tr));
       const auto img = tr(r.uid);
       if (res.find(img) == nullptr) {
-        if (pbt::known(kKnownDupChain) && hasTripleShape({&b1, &b2})) return pbt::excluded(kKnownDupChain);
+        bool chain = false;  // v is (the unchanged identifier of) an operand constituent that was itself translated on
+        for (int vj = 0; vj < 2; ++vj) { const auto& tj = trs[static_cast<size_t>(vj)]; if (views[static_cast<size_t>(vj)].sn->find(img) != nullptr && tj.ContainsKey(img) && tj(img) != img) chain = true; }
+        // operand-2 copies get fresh identifiers when the operands share identifiers: the chain cannot be observed then
+        const bool unobservable = sec.mode >= 2 && b1.find(img) == nullptr && b2.find(img) == nullptr && res.rows.size() < b1.rows.size() + b2.rows.size() - pairs.size();
+        if (pbt::known(kKnownDupChain) && (chain || unobservable)) return pbt::excluded(kKnownDupChain);
         return pbt::fail("translation-dangling", v.name + " constituent " + r.str() + " is mapped to " + std::to_string(img) + " which is not in the result " + res.str());
       }
       v.img[r.uid] = img;
@@ -555,6 +593,12 @@ Verdict propEquate(Ctx& c) {
   for (const auto& [k, v] : pairs) if (k && v && ((!isBaseSet(k->type) && isBaseSet(v->type)) || (!isBaseNotion(k->type) && isBaseNotion(v->type)))) wrongDirection = true;
 
   if (pbt::known(kKnownBaseWithElement) && baseWithNonSetClass(pairs, before, before)) return pbt::excluded(kKnownBaseWithElement);
+  if (pbt::known(kKnownCyclic) && cyclicIdentificationClass(pairs, before, 0, before, 0, false)) return pbt::excluded(kKnownCyclic);
+  if (hasBaseToDerivedPair(pairs, false)) {
+    const auto probe = pbt::inChild([&] { (void)s.Ops().IsEquatable(opts); return pbt::pass(); }, 4);
+    if (probe.status == pbt::ChildResult::TIMEOUT) return pbt::fail("admissibility-check-hangs", "IsEquatable did not return within 4 s");
+    c.count("checked:termination-probe");
+  }
 
   const bool equatable = s.Ops().IsEquatable(opts);
   CHECK(sgen::snapshot(s).json == before.json, "refused-changes", "IsEquatable changed the schema");
@@ -580,7 +624,7 @@ Verdict propEquate(Ctx& c) {
   for (const auto& r : before.rows) {
     const EntityUID img = tr->ContainsKey(r.uid) ? (*tr)(r.uid) : r.uid;
     if (res.find(img) == nullptr) {
-      if (pbt::known(kKnownDupChain) && hasTripleShape({&before})) return pbt::excluded(kKnownDupChain);
+      if (pbt::known(kKnownDupChain) && before.find(img) != nullptr && tr->ContainsKey(img)) return pbt::excluded(kKnownDupChain);
       return pbt::fail("translation-dangling", "constituent " + r.str() + " is mapped to " + std::to_string(img) + " which is not in the result " + res.str() + "; translation " + trStr(*tr));
     }
     view.img[r.uid] = img;
@@ -639,7 +683,7 @@ Verdict propDuplicates(Ctx& c) {
   for (const auto& r : before.rows) {
     const EntityUID img = tr.ContainsKey(r.uid) ? tr(r.uid) : r.uid;
     if (res.find(img) == nullptr) {
-      if (pbt::known(kKnownDupChain) && hasTripleShape({&before})) return pbt::excluded(kKnownDupChain);
+      if (pbt::known(kKnownDupChain) && before.find(img) != nullptr && tr.ContainsKey(img)) return pbt::excluded(kKnownDupChain);
       return pbt::fail("translation-dangling", "constituent " + r.str() + " is mapped to " + std::to_string(img) + " which is not in the result " + res.str() + "; translation " + trStr(tr));
     }
     view.img[r.uid] = img;
@@ -696,9 +740,9 @@ Verdict propMerge(Ctx& c) {
 
 int main(int argc, char** argv) {
   std::vector<pbt::Prop> props;
-  props.push_back({"synthesis", propSynthesis, 750, 20000, false, false, "pairs of schemas + equation tables through ops::BinarySynthes"});
-  props.push_back({"equate", propEquate, 1000, 20000, false, false, "one schema + equation table through Ops().IsEquatable / Equate"});
-  props.push_back({"duplicates", propDuplicates, 500, 12000, false, false, "schemas with duplicated constituents through Ops().DeleteDuplicates"});
-  props.push_back({"merge", propMerge, 450, 12000, false, false, "pairs of schemas through Ops().MergeWith"});
+  props.push_back({"synthesis", propSynthesis, 750, 12000, false, false, "pairs of schemas + equation tables through ops::BinarySynthes"});
+  props.push_back({"equate", propEquate, 1000, 12000, false, false, "one schema + equation table through Ops().IsEquatable / Equate"});
+  props.push_back({"duplicates", propDuplicates, 500, 6000, false, false, "schemas with duplicated constituents through Ops().DeleteDuplicates"});
+  props.push_back({"merge", propMerge, 450, 6000, false, false, "pairs of schemas through Ops().MergeWith"});
   return pbt::main(argc, argv, "C12", props);
 }
